@@ -161,15 +161,16 @@ static void string_scenario(cs::Src& s, cs::Ctx& ctx, int via) {
 
 // many references to one copied string (reference counts have the slot id type)
 static void refcount_scenario(cs::Src& s, cs::Ctx& ctx) {
-  if (MAX_SLOTS > 70000) return;
   lib::Ledger ledger;
   JsonDocument doc(&ledger);
   size_t ok = 0;
-  for (size_t i = 0; i < MAX_SLOTS + 4; i++) {
+  // as many references as slots exist; with 4-byte ids: more than a 2-byte counter could hold
+  size_t want = MAX_SLOTS > 70000 ? 66000 : MAX_SLOTS;
+  for (size_t i = 0; i < want + (MAX_SLOTS > 70000 ? 0 : 4); i++) {
     if (!doc.add(std::string("shared"))) break;
     ok++;
   }
-  if (ok != MAX_SLOTS) ctx.fail("limit-position", "refcount scenario: " + std::to_string(ok) + " insertions");
+  if (ok != want) ctx.fail("limit-position", "refcount scenario: " + std::to_string(ok) + " insertions");
   expect_clean(ctx, doc, ledger, "max references to one string", false);
   size_t k = 1 + (size_t)s.below(ok);
   for (size_t i = 0; i < k; i++) doc.remove((size_t)0);
